@@ -2,7 +2,8 @@
 // line: <tissue case> H mode seed search niter {scale_k}
 //   mode 0: cell level  (per iteration: scale every cell about its centroid by scale_k, then apply_internal_forces(dt))
 //   mode 1: real solver (per iteration: scale, then solver::run_iteration())
-// out : INIT {id gid V Vt P g Vdiv rawg rawdiv} | I k {id gid V Vt P g Vdiv ready below} | ...
+// out : INIT {id gid V Vt P g Vdiv rawg rawdiv} | I k {id gid V Vt P g Vdiv ready below} {X id V minvol Vdiv in_divider} | ...
+//       X = a cell emptied during the iteration (clear_data), with the volume it carried when it was emptied
 #include "tissue.hpp"
 #include "solver.hpp"
 #include <random>
@@ -11,6 +12,8 @@
 #include <unistd.h>
 
 extern int64_t verif_clock_ns; extern int64_t verif_clock_step;
+struct verif_clear_event { unsigned id; double vol, minvol, divvol; int in_divider; };
+extern std::vector<verif_clear_event> verif_clear_log;      // cycle_wrap.cpp: every cell::clear_data() with the volume carried at that moment
 
 class cell_tester {
 public:
@@ -82,8 +85,9 @@ int main(){
             for (int k=0;k<niter;k++){
                 for (const cell_ptr& c : s.get_cell_lst()) if (scales[k] != 1.0) cell_tester::scale(c, scales[k]);
                 if (mode == 0){ for (const cell_ptr& c : s.get_cell_lst()) c->apply_internal_forces(dt); }
-                else s.run_iteration();
+                else { verif_clear_log.clear(); s.run_iteration(); }
                 std::cout << " | I " << k; dump(s.get_cell_lst());
+                if (mode != 0) for (const auto& e : verif_clear_log) std::cout << " X " << e.id << " " << hx(e.vol) << " " << hx(e.minvol) << " " << hx(e.divvol) << " " << e.in_divider << " ;";
             }
             std::cout << "\n";
             std::filesystem::remove_all(out_dir);
